@@ -96,6 +96,8 @@ def pkg_dirs_for(package):
 # replay (DESIGN 2.6): regenerate the counterexample as a unit test and run it natively
 # -------------------------------------------------------------------------------------------------
 def generate_playback(w, h, tier):
+    if os.path.basename(h.file).startswith("c13_") and h.file.endswith("_gen.rs"):
+        return synthesize_c13_replay(w, h, tier, None)
     cmd = lrv.kani_cmd(w.build, [h.fq()], os.path.join(w.scratch, "target"),
                        6 * (h.timeout or TIER_TIMEOUT[tier]),
                        ["-Z", "concrete-playback", "--concrete-playback=print"])
@@ -122,6 +124,33 @@ def generate_playback(w, h, tier):
             uniq.append(t)
     tests = uniq
     return tests, log
+
+
+def synthesize_c13_replay(w, h, tier, log):
+    """Kani's concrete playback runs CBMC without formula slicing; for the lora-phy driver stack
+    that needs > 46 GB.  For the generated C13 harnesses the counterexample is rebuilt instead:
+    the parameter values are read from the CBMC trace of the (sliced) plain run and the harness
+    body is re-generated as native tests with those values on several concrete chip contents
+    (lib/c13gen.replay_tests).  The tests go through the same native run as Kani's own."""
+    import c13gen
+    cmd = lrv.kani_cmd(w.build, [h.fq()], os.path.join(w.scratch, "target"),
+                       2 * (h.timeout or TIER_TIMEOUT[tier]), ["--output-format", "old", "--cbmc-args", "--trace"])
+    env = dict(lrv.ENV)
+    if lrv.BUILDS[w.build].get("rustflags"):
+        env["RUSTFLAGS"] = lrv.BUILDS[w.build]["rustflags"]
+    tlog = os.path.join(w.logdir, "trace-%s.log" % h.uid)
+    lrv.run_cmd(cmd, os.path.join(w.scratch, "src"), tlog, 600 + 2 * (h.timeout or TIER_TIMEOUT[tier]), MEM_GB, env)
+    text = open(tlog, errors="replace").read()
+    i = text.find("Trace for ")
+    values = {}
+    if i >= 0:
+        for name in c13gen.param_names(h.id):
+            m = re.search(r"^  %s=(\d+) \(" % re.escape(name), text[i:], flags=re.M)
+            if m:
+                values[name] = int(m.group(1))
+    if i < 0 or len(values) != len(c13gen.param_names(h.id)):
+        return [], tlog
+    return c13gen.replay_tests(h.id, values), tlog
 
 
 def fix_playback_text(t):
